@@ -98,14 +98,17 @@ Record db := {
   d_iters : list (N * itst);
   d_txs : list (N * txst);
   d_occ : list (N * cm);              (* SSI oracle: commit timestamp -> conflict manager *)
-  d_meta_seq : N                      (* highest seqno held by the meta tree *)
+  d_meta_seq : N;                     (* highest seqno held by the meta tree *)
+  d_jwritten : bool                   (* the journal writer has written since it was opened: a writer reopened in append
+                                         mode reports position 0 until its first write (Writer::pos = stream_position) *)
 }.
 
 Definition db_init (mode : dbmode) (filters : list (bytes * frule)) : db :=
   {| d_seqno := 0; d_trk := tr_init 0; d_active := []; d_sealed := []; d_kss := [];
      d_map := []; d_meta := []; d_next_id := 1; d_dirs := []; d_poisoned := false;
      d_queue := []; d_flushq := []; d_filters := filters; d_mode := mode; d_handles := [];
-     d_snaps := []; d_iters := []; d_txs := []; d_occ := []; d_meta_seq := 0 |}.
+     d_snaps := []; d_iters := []; d_txs := []; d_occ := []; d_meta_seq := 0;
+     d_jwritten := true |}.
 
 (* ---- small helpers ---- *)
 Fixpoint alookup {A} (k : N) (l : list (N * A)) : option A :=
@@ -140,33 +143,38 @@ Definition upd (d : db) (seqno : N) (trk : tracker) (kss : list kspace) : db :=
      d_map := d_map d; d_meta := d_meta d; d_next_id := d_next_id d; d_dirs := d_dirs d;
      d_poisoned := d_poisoned d; d_queue := d_queue d; d_flushq := d_flushq d;
      d_filters := d_filters d; d_mode := d_mode d; d_handles := d_handles d; d_snaps := d_snaps d;
-     d_iters := d_iters d; d_txs := d_txs d; d_occ := d_occ d; d_meta_seq := d_meta_seq d |}.
+     d_iters := d_iters d; d_txs := d_txs d; d_occ := d_occ d; d_meta_seq := d_meta_seq d;
+     d_jwritten := d_jwritten d |}.
 Definition upd_journal (d : db) (a : list rbatch) : db :=
   {| d_seqno := d_seqno d; d_trk := d_trk d; d_active := a; d_sealed := d_sealed d; d_kss := d_kss d;
      d_map := d_map d; d_meta := d_meta d; d_next_id := d_next_id d; d_dirs := d_dirs d;
      d_poisoned := d_poisoned d; d_queue := d_queue d; d_flushq := d_flushq d;
      d_filters := d_filters d; d_mode := d_mode d; d_handles := d_handles d; d_snaps := d_snaps d;
-     d_iters := d_iters d; d_txs := d_txs d; d_occ := d_occ d; d_meta_seq := d_meta_seq d |}.
+     d_iters := d_iters d; d_txs := d_txs d; d_occ := d_occ d; d_meta_seq := d_meta_seq d;
+     d_jwritten := true |}.
 Definition upd_queue (d : db) (q : list wmsg) (fq : list N) : db :=
   {| d_seqno := d_seqno d; d_trk := d_trk d; d_active := d_active d; d_sealed := d_sealed d; d_kss := d_kss d;
      d_map := d_map d; d_meta := d_meta d; d_next_id := d_next_id d; d_dirs := d_dirs d;
      d_poisoned := d_poisoned d; d_queue := q; d_flushq := fq;
      d_filters := d_filters d; d_mode := d_mode d; d_handles := d_handles d; d_snaps := d_snaps d;
-     d_iters := d_iters d; d_txs := d_txs d; d_occ := d_occ d; d_meta_seq := d_meta_seq d |}.
+     d_iters := d_iters d; d_txs := d_txs d; d_occ := d_occ d; d_meta_seq := d_meta_seq d;
+     d_jwritten := d_jwritten d |}.
 Definition upd_views (d : db) (hs : list (N * N)) (sn : list (N * N)) (its : list (N * itst))
   (txs : list (N * txst)) (occ : list (N * cm)) : db :=
   {| d_seqno := d_seqno d; d_trk := d_trk d; d_active := d_active d; d_sealed := d_sealed d; d_kss := d_kss d;
      d_map := d_map d; d_meta := d_meta d; d_next_id := d_next_id d; d_dirs := d_dirs d;
      d_poisoned := d_poisoned d; d_queue := d_queue d; d_flushq := d_flushq d;
      d_filters := d_filters d; d_mode := d_mode d; d_handles := hs; d_snaps := sn;
-     d_iters := its; d_txs := txs; d_occ := occ; d_meta_seq := d_meta_seq d |}.
+     d_iters := its; d_txs := txs; d_occ := occ; d_meta_seq := d_meta_seq d;
+     d_jwritten := d_jwritten d |}.
 Definition upd_reg (d : db) (kss : list kspace) (mp : list (bytes * N)) (meta : list (N * bytes))
   (next_id : N) (dirs : list N) (metaseq : N) : db :=
   {| d_seqno := d_seqno d; d_trk := d_trk d; d_active := d_active d; d_sealed := d_sealed d; d_kss := kss;
      d_map := mp; d_meta := meta; d_next_id := next_id; d_dirs := dirs;
      d_poisoned := d_poisoned d; d_queue := d_queue d; d_flushq := d_flushq d;
      d_filters := d_filters d; d_mode := d_mode d; d_handles := d_handles d; d_snaps := d_snaps d;
-     d_iters := d_iters d; d_txs := d_txs d; d_occ := d_occ d; d_meta_seq := metaseq |}.
+     d_iters := d_iters d; d_txs := d_txs d; d_occ := d_occ d; d_meta_seq := metaseq;
+     d_jwritten := d_jwritten d |}.
 
 (* a version upgrade inside lsm-tree: draws from the shared seqno counter and
    bumps the shared visible seqno (outside the journal lock) *)
@@ -351,8 +359,44 @@ Definition do_ingest (d : db) (id : N) (items : list iitem) : db * obs :=
       end
   end.
 
-(* journal maintenance on the model: sealed journals only arise from recovery
-   of a multi-journal directory; eviction rule of JournalManager::maintenance *)
+(* ---- size of the active journal and sealing (worker_pool.rs Flush arm, JournalManager::rotate_journal) ----
+   A value of the form ff fe fd fc a b stands for (256a+b) KiB of incompressible data: the differential driver
+   writes the real bytes into the implementation and this 6-byte placeholder into the model, so that programs can
+   push the journal over its rotation threshold without the model having to hold the data. *)
+Definition real_len (v : bytes) : N :=
+  match v with
+  | 255 :: 254 :: 253 :: 252 :: a :: b :: [] => (a * 256 + b) * 1024
+  | _ => N.of_nat (length v)
+  end.
+Definition item_bytes (it : ritem) : N := 21 + N.of_nat (length (ri_key it)) + real_len (ri_value it).
+Definition batch_bytes (b : rbatch) : N :=
+  26 + fold_left (fun a it => a + item_bytes it) (rb_items b) 0 + 9 * N.of_nat (length (rb_clears b)).
+Definition jbytes (a : list rbatch) : N := fold_left (fun acc b => acc + batch_bytes b) a 0.
+Definition JLIMIT : N := 64000000.
+
+Definition upd_sealed (d : db) (a : list rbatch) (sealed : list sealedj) : db :=
+  {| d_seqno := d_seqno d; d_trk := d_trk d; d_active := a; d_sealed := sealed; d_kss := d_kss d;
+     d_map := d_map d; d_meta := d_meta d; d_next_id := d_next_id d; d_dirs := d_dirs d;
+     d_poisoned := d_poisoned d; d_queue := d_queue d; d_flushq := d_flushq d;
+     d_filters := d_filters d; d_mode := d_mode d; d_handles := d_handles d; d_snaps := d_snaps d;
+     d_iters := d_iters d; d_txs := d_txs d; d_occ := d_occ d; d_meta_seq := d_meta_seq d;
+     d_jwritten := d_jwritten d |}.
+
+(* Supervisor::build_seqno_map over the registered keyspaces *)
+Definition build_wm (d : db) : list (N * N) :=
+  flat_map (fun p => match ks_of d (snd p) with
+                     | Some ks => match t_highest_mem (k_tree ks) with
+                                  | Some l => [(snd p, l)]
+                                  | None => []
+                                  end
+                     | None => []
+                     end) (d_map d).
+Definition maybe_seal (d : db) : db :=
+  if d_jwritten d && (JLIMIT <? jbytes (d_active d))
+  then upd_sealed d [] (d_sealed d ++ [{| sj_batches := d_active d; sj_wm := build_wm d |}])
+  else d.
+
+(* journal maintenance: eviction rule of JournalManager::maintenance *)
 Definition evictable (d : db) (j : sealedj) : bool :=
   forallb (fun w => match ks_of d (fst w) with
                     | None => true
@@ -373,7 +417,8 @@ Definition journal_maintenance (d : db) : db :=
      d_map := d_map d; d_meta := d_meta d; d_next_id := d_next_id d; d_dirs := d_dirs d;
      d_poisoned := d_poisoned d; d_queue := d_queue d; d_flushq := d_flushq d;
      d_filters := d_filters d; d_mode := d_mode d; d_handles := d_handles d; d_snaps := d_snaps d;
-     d_iters := d_iters d; d_txs := d_txs d; d_occ := d_occ d; d_meta_seq := d_meta_seq d |}.
+     d_iters := d_iters d; d_txs := d_txs d; d_occ := d_occ d; d_meta_seq := d_meta_seq d;
+     d_jwritten := d_jwritten d |}.
 
 (* Keyspace::inner_rotate_memtable after a successful rotation *)
 Definition after_rotate (d : db) (id : N) : db :=
@@ -421,7 +466,7 @@ Definition do_step (d : db) : db * N :=
           match d_flushq d0 with
           | [] => (d0, 2)
           | id :: fq =>
-              let d1 := upd_queue d0 (d_queue d0) fq in
+              let d1 := maybe_seal (upd_queue d0 (d_queue d0) fq) in
               match ks_of d1 id with
               | None => (d1, 2)
               | Some ks =>
@@ -563,6 +608,37 @@ Definition replay_batch (cfg : defects) (meta : list (N * bytes)) (mp : list (by
 
 Definition nmax_list (l : list N) : N := fold_left N.max l 0.
 
+(* recovery.rs recover_sealed_memtables, one sealed journal: replay, then per keyspace that has records in it either
+   drop the rebuilt memtable (tables already cover it) or seal it; the journal is re-registered with watermarks
+   recomputed from its records *)
+Definition resolves (meta : list (N * bytes)) (mp : list (bytes * N)) (id : N) : bool :=
+  match alookup id meta with
+  | Some name => match blookup name mp with Some _ => true | None => false end
+  | None => false
+  end.
+Definition wm_add (w : list (N * N)) (id s : N) : list (N * N) :=
+  match alookup id w with
+  | Some l => aset id (N.max l s) w
+  | None => aset id s w
+  end.
+Definition wm_of_journal (meta : list (N * bytes)) (mp : list (bytes * N)) (bs : list rbatch) : list (N * N) :=
+  fold_left (fun w b =>
+    fold_left (fun w id => if resolves meta mp id then wm_add w id (rb_seqno b) else w)
+              (map ri_ks (rb_items b) ++ rb_clears b) w) bs [].
+Definition recover_sealed_one (cfg : defects) (meta : list (N * bytes)) (mp : list (bytes * N))
+  (st : N * list kspace * list sealedj) (bs : list rbatch) : N * list kspace * list sealedj :=
+  let '(sq, kss, acc) := st in
+  let '(sq1, kss1) := fold_left (replay_batch cfg meta mp) bs (sq, kss) in
+  let wms := wm_of_journal meta mp bs in
+  let kss2 := map (fun k => match alookup (k_id k) wms with
+                            | None => k
+                            | Some lsn =>
+                                if match t_highest_persisted (k_tree k) with Some p => lsn <=? p | None => false end
+                                then with_tree k (t_clear_active (k_tree k))
+                                else with_tree k (fst (t_rotate (k_tree k)))
+                            end) kss1 in
+  (sq1, kss2, acc ++ [{| sj_batches := bs; sj_wm := wms |}]).
+
 Definition recover (cfg : defects) (mode : dbmode) (filters : list (bytes * frule))
   (active : list rbatch) (sealed : list (list rbatch))
   (meta : list (N * bytes)) (dirs : list (N * tree)) (prev_next_id : N) (meta_seq : N) : db :=
@@ -579,8 +655,8 @@ Definition recover (cfg : defects) (mode : dbmode) (filters : list (bytes * frul
   let jids := flat_map (fun b => map ri_ks (rb_items b) ++ rb_clears b) (concat sealed ++ active) in
   let next_id := if d_id_reuse cfg then nmax_list (1 :: map fst dirs) + 1
                  else nmax_list (1 :: map fst dirs ++ jids) + 1 in
-  (* recover_sealed_memtables: not reachable in model programs (needs 64 MB of journal); sealed = [] *)
-  let '(sq1, kss1) := fold_left (replay_batch cfg meta mp) (concat sealed) (0, kss) in
+  (* recover_sealed_memtables: one journal after the other *)
+  let '(sq1, kss1, sealed') := fold_left (recover_sealed_one cfg meta mp) sealed (0, kss, []) in
   (* active journal *)
   let '(sq2, kss2) := fold_left (replay_batch cfg meta mp) active (sq1, kss1) in
   let seqno := fold_left (fun acc k => match t_highest (k_tree k) with
@@ -588,13 +664,19 @@ Definition recover (cfg : defects) (mode : dbmode) (filters : list (bytes * frul
   let jmax := fold_left (fun acc b => N.max acc (rb_seqno b + 1)) (concat sealed ++ active) 0 in
   let seqno' := if d_seqno_journal cfg then seqno else N.max seqno jmax in
   let trk := tr_gc (tr_init seqno') in
-  let q := flat_map (fun k => match v_tables (latest (k_tree k)) with
-                              | [] => [] | _ => [WCompact (k_id k)] end) kss2 in
-  {| d_seqno := seqno'; d_trk := trk; d_active := active; d_sealed := [];
+  let q := flat_map (fun k => match v_sealed (latest (k_tree k)) with
+                              | _ :: _ => [WFlush]
+                              | [] => match v_tables (latest (k_tree k)) with
+                                      | [] => [] | _ => [WCompact (k_id k)] end
+                              end) kss2 in
+  let fq := flat_map (fun k => match v_sealed (latest (k_tree k)) with
+                               | _ :: _ => [k_id k] | [] => [] end) kss2 in
+  {| d_seqno := seqno'; d_trk := trk; d_active := active; d_sealed := sealed';
      d_kss := kss2; d_map := mp; d_meta := meta; d_next_id := next_id;
-     d_dirs := map fst live; d_poisoned := false; d_queue := q; d_flushq := [];
+     d_dirs := map fst live; d_poisoned := false; d_queue := q; d_flushq := fq;
      d_filters := filters; d_mode := mode; d_handles := []; d_snaps := []; d_iters := [];
-     d_txs := []; d_occ := []; d_meta_seq := meta_seq |}.
+     d_txs := []; d_occ := []; d_meta_seq := meta_seq;
+     d_jwritten := false |}.
 
 Definition do_reopen (cfg : defects) (d : db) : db :=
   let dirs := dirs_after_close d in
